@@ -7,11 +7,22 @@ use std::panic::{catch_unwind, AssertUnwindSafe};
 
 pub fn one(ctx: &mut Ctx, data: &[u8], level: u8, zlib: bool, tag: &str) {
     let id = ctx.id();
+    let _ = miniz_oxide::verif_vec_trace::take();
+    let mut vec_lines: Vec<String> = vec![];
     let r = catch_unwind(AssertUnwindSafe(|| {
         let c = if zlib { compress_to_vec_zlib(data, level) } else { compress_to_vec(data, level) };
+        let tr = miniz_oxide::verif_vec_trace::take();
         let d = if zlib { decompress_to_vec_zlib(&c) } else { decompress_to_vec(&c) };
-        (c, d)
+        let tr2 = miniz_oxide::verif_vec_trace::take();
+        (c, d, tr, tr2)
     }));
+    let r = r.map(|(c, d, tr, tr2)| {
+        let fmt = |t: &Vec<[i64; 7]>, k: i64| -> String { let v: Vec<String> = t.iter().filter(|e| e[0] == k).map(|e| format!("{}:{}:{}:{}:{}:{}", e[1], e[2], e[3], e[4], e[5], e[6])).collect(); if v.is_empty() { "-".into() } else { v.join(";") } };
+        vec_lines.push(format!("VECD in={} len={} calls={}", data.len(), c.len(), fmt(&tr, 2)));
+        let (ok, st, len) = match &d { Ok(v) => (1, 0, v.len()), Err(e) => (0, e.status as i32, e.output.len()) };
+        vec_lines.push(format!("VECI in={} limit={} ok={} st={} len={} calls={}", c.len(), usize::MAX, ok, st, len, fmt(&tr2, 1)));
+        (c, d)
+    });
     let replay = format!("RT level={} fmt={} in={}", level, zlib as u8, hex(data));
     ctx.eval(if data.len() > 3 { fnv(data) ^ (level as u64) << 1 ^ (zlib as u64) << 9 } else { 0 });
     ctx.count(&format!("level_{}", level.min(11)));
@@ -31,6 +42,7 @@ pub fn one(ctx: &mut Ctx, data: &[u8], level: u8, zlib: bool, tag: &str) {
             }
             ctx.sample(format!("level={} zlib={} kind={} in_len={} comp_len={}", level, zlib, tag, data.len(), c.len()));
             ctx.line(&format!("ENC id={} rp=RT checks=rt level={} fmt={} wb=15 in={} comp={}", id, level, zlib as u8, hex(data), hex(&c)));
+            for l in &vec_lines { ctx.count("vec_loop_lines"); ctx.line(&format!("{} id={} rp=RT;level={};fmt={};inkey=full full={}", l, id, level, zlib as u8, hex(data))); }
         }
     }
 }
